@@ -34,6 +34,9 @@ Definition w_k6 : list op :=
   [CreateNode 9 [] []; CreateNode 9 [] []; Begin 0; CreateEdge 0 0 1 0; Read 1 (Neigh 0 Out); Read 1 (Degree 0);
    Rollback 0; Read 1 (Neigh 0 Out); Read 1 (GetEdge 0)].
 
+Definition w_k7 : list op :=
+  [Begin 0; Commit 0; Begin 0; CreateNode 0 [0] [(0, Some 1)]; Commit 0; Read 9 (LabelScan 0); Read 9 (FreshLabelScan 0)].
+
 Lemma k1_refuted_l : refutes_c01 1 w_k1_dirty /\ refutes_c01 1 w_k1_phantom.
 Proof. vm_compute. repeat split. Qed.
 Lemma k2_refuted_l : refutes_c01 2 w_k2.
@@ -47,6 +50,9 @@ Proof. vm_compute. repeat split. Qed.
 Lemma k6_refuted_l : refutes_c01 6 w_k6.
 Proof. vm_compute. repeat split. Qed.
 
+Lemma k7_refuted_l : refutes_c01 7 w_k7 /\ c01_fails w_k7 (mrun w_k7) = [(6, 7)].
+Proof. vm_compute. repeat split. Qed.
+
 (** histories outside every class, with reads strictly inside another session's open transaction *)
 Definition w_clean_later_starter : list op :=
   [CreateNode 9 [0] []; Begin 1; Begin 2; Commit 2; Begin 0; CreateNode 0 [0] [(0, Some 3)]; Read 1 (LabelScan 0);
@@ -55,6 +61,30 @@ Definition w_clean_rdf : list op :=
   [InsertTriple 9 (0, 0, 0); Begin 0; InsertTriple 0 (1, 1, 1); DeleteTriple 0 (0, 0, 0);
    Read 1 (TripleQ (None, None, None)); Rollback 0; Read 1 (TripleQ (None, None, None));
    Begin 0; InsertTriple 0 (1, 0, 1); Read 1 (TripleQ (None, Some 0, None)); Commit 0; Read 1 (TripleQ (None, None, None))].
+(** expands (untyped, typed, all three directions) by the writer itself and by a reader whose snapshot precedes
+    the writer's begin *)
+Definition w_clean_expand : list op :=
+  [CreateNode 9 [0] []; CreateNode 9 [1] []; CreateEdge 9 0 1 0; CreateEdge 9 1 1 1; Begin 1; Begin 2; Commit 2; Begin 0;
+   CreateEdge 0 1 0 1; Read 0 (Expand SelAny Both None); Read 1 (Expand (SelLabel 0) Out (Some 0));
+   Read 1 (Expand SelAny Inc None); Read 1 (Expand SelAny Both (Some 1)); Commit 0; Read 1 (Expand SelAny Out None)].
+Lemma clean_expand_l :
+  c01_fails w_clean_expand (mrun w_clean_expand) = [] /\ snapshot_ok w_clean_expand (mrun w_clean_expand) = true
+  /\ nth 9 (mrun w_clean_expand) OErr = ORows [(0, 0, 1); (0, 2, 1); (1, 0, 0); (1, 1, 1); (1, 1, 1); (1, 2, 0)]
+  /\ nth 12 (mrun w_clean_expand) OErr = ORows [(1, 1, 1); (1, 1, 1)].
+Proof. vm_compute. repeat split. Qed.
+(** expand deviations are classified: an edge of an open transaction (1), an edge deleted in place by an open
+    transaction (3), a typed expand at a later epoch (4) *)
+Definition w_expand_k1 : list op :=
+  [CreateNode 9 [] []; CreateNode 9 [] []; Begin 0; CreateEdge 0 0 1 0; Read 1 (Expand SelAny Out None)].
+Definition w_expand_k3 : list op :=
+  [CreateNode 9 [] []; CreateNode 9 [] []; CreateEdge 9 0 1 0; Begin 0; DeleteNode 0 SelAny 1 true; Read 1 (Expand SelAny Out None)].
+Definition w_expand_k4 : list op :=
+  [CreateNode 9 [0] []; Begin 0; Commit 0; CreateNode 1 [0] []; CreateEdge 1 0 1 0; Read 1 (Expand (SelLabel 0) Out (Some 0))].
+Lemma expand_classes_l :
+  c01_fails w_expand_k1 (mrun w_expand_k1) = [(4, 1)] /\ c01_fails w_expand_k3 (mrun w_expand_k3) = [(5, 3)]
+  /\ c01_fails w_expand_k4 (mrun w_expand_k4) = [(5, 4)].
+Proof. vm_compute. repeat split. Qed.
+
 Lemma clean_examples_l :
   c01_fails w_clean_later_starter (mrun w_clean_later_starter) = [] /\ snapshot_ok w_clean_later_starter (mrun w_clean_later_starter) = true
   /\ c01_fails w_clean_rdf (mrun w_clean_rdf) = [] /\ snapshot_ok w_clean_rdf (mrun w_clean_rdf) = true.
